@@ -249,3 +249,12 @@ def deciding(m):
     if m["counts"].get("final_forms_audited", 0) == 0:
         out.append("no final form was audited for rule-freeness")
     return out
+
+
+def extra_coverage(m):
+    out = {}
+    n = m["counts"].get("small_scope_inputs", 0)
+    if n:
+        tot = G.small_scope_total()
+        out.update({"small_scope_inputs": n, "small_scope_total": tot, "small_scope_enumerated_completely": n == tot})
+    return out
